@@ -86,6 +86,9 @@ void run_sorter(It f, It l, int cmp)
 template <Sorter S, typename K>
 auto a_sorter(Case const& c) -> std::string
 {
+    if constexpr (S == Sorter::exchange) {
+        if (c.a.empty() && known("C06.exchange_sort.empty")) { return SKIP; } // exclusion class: empty range
+    }
     V in = mk(c.a, 0);
     Buf A("a", in, c.pad, padn(c));
     {
